@@ -461,6 +461,75 @@ Proof.
   exact (transform_scalar_copy_err ct h0 l a c d k sp s Hl Hc Ha Hd Hflat Hdnc Hni Hfa Hty Hnc Hinit Hp f e s' Hf Hcur Hpc H).
 Qed.
 
+(* reset_<a>() and update(a=v, ...) WITHOUT _inplace on a flat receiver of an unfrozen class
+   (no __post_copy__ hook): the call is a deep copy followed by the in-place call on the copy
+   (which the theorems above characterise), so: the result is a fresh instance whose
+   abstraction is the specification's; an Err outcome has the specification's error class;
+   in BOTH cases no pre-existing cell is changed (fresh-only footprint -- after a failing
+   update(...) the half-updated copy is garbage). *)
+Theorem C05_reset_copy_refines_partial : forall ct h0 l a c d k sp s,
+  nth_error (heap s) l = Some (OInst c d) -> lookup_cls ct c = Some k -> lookup_attr k a = Some sp ->
+  NoDup (map fst d) -> flat_fields (heap s) d ->
+  c_dnc k = false -> c_frozen k = false -> no_inval k -> fail_at s = None -> c_post_copy k = None ->
+  ty_depth (a_ty sp) < FUEL -> ty_is_collection (a_ty sp) = false ->
+  match a_prepare sp with Some g => scalar_fn g = true | None => True end ->
+  literal_default a k sp ->
+  vscalar (class_default k a) = true \/ class_default k a = VMissing ->
+  let h := mkh [] false true VMissing false None None [] None in
+  let ah := mkah [] false true AMissing false None None [] None in
+  match run_helper ct l (HReset a) h s with
+  | (Ok r, s') => exists l', r = VRef l' /\ length (heap s) <= l' /\
+                  spec_helper ct h0 (absv (heap s) (VRef l)) (SReset a) ah = SOk (absv (heap s') (VRef l')) /\
+                  (forall i, i < length (heap s) -> nth_error (heap s') i = nth_error (heap s) i)
+  | (Err e, s') => spec_helper ct h0 (absv (heap s) (VRef l)) (SReset a) ah = SErr e /\
+                   (forall i, i < length (heap s) -> nth_error (heap s') i = nth_error (heap s) i)
+  end.
+Proof.
+  intros ct h0 l a c d k sp s Hl Hc Ha Hd Hflat Hdnc Hfz Hni Hfa Hpc Hty Hnc Hp Hlit Hdv.
+  exact (reset_scalar_copy_unfrozen ct h0 l c d k s Hl Hc Hd Hflat Hdnc Hfz Hni Hfa Hpc a sp Ha Hty Hnc Hp Hlit Hdv).
+Qed.
+
+Theorem C05_update_top_copy_refines_partial : forall ct h0 l c d k s p0 ps,
+  nth_error (heap s) l = Some (OInst c d) -> lookup_cls ct c = Some k ->
+  NoDup (map fst d) -> flat_fields (heap s) d ->
+  c_dnc k = false -> c_frozen k = false -> no_inval k -> fail_at s = None -> c_post_copy k = None ->
+  forallb (kw_ok k) (p0 :: ps) = true ->
+  let h := mkh [] false true VMissing false None (Some (p0 :: ps)) [] None in
+  let ah := mkah [] false true AMissing false None (Some (akw (p0 :: ps))) [] None in
+  match run_helper ct l HUpdateTop h s with
+  | (Ok r, s') => exists l', r = VRef l' /\ length (heap s) <= l' /\
+                  spec_helper ct h0 (absv (heap s) (VRef l)) SUpdateTop ah = SOk (absv (heap s') (VRef l')) /\
+                  (forall i, i < length (heap s) -> nth_error (heap s') i = nth_error (heap s) i)
+  | (Err e, s') => spec_helper ct h0 (absv (heap s) (VRef l)) SUpdateTop ah = SErr e /\
+                   (forall i, i < length (heap s) -> nth_error (heap s') i = nth_error (heap s) i)
+  end.
+Proof.
+  intros ct h0 l c d k s p0 ps Hl Hc Hd Hflat Hdnc Hfz Hni Hfa Hpc Hkws.
+  exact (update_top_copy_unfrozen ct h0 l c d k s Hl Hc Hd Hflat Hdnc Hfz Hni Hfa Hpc p0 ps Hkws).
+Qed.
+
+Example C05_example_copy :
+  flat_fields (heap ex_state2) [(1, VInt 7); (3, VInt 9)] /\ c_post_copy ex_k2 = None /\ c_dnc ex_k2 = false /\
+  (* update(a1=5, a3=None): a fresh instance, the receiver untouched *)
+  (let '(r, s') := run_helper ex_ct2 0 HUpdateTop
+                     (mkh [] false true VMissing false None (Some [(1, VInt 5); (3, VNone)]) [] None) ex_state2 in
+   r = Ok (VRef 1) /\ nth_error (heap s') 1 = Some (OInst 2 [(1, VInt 6); (3, VNone)]) /\
+   nth_error (heap s') 0 = nth_error (heap ex_state2) 0) /\
+  (* a failing update(a1=5, a3="x"): TypeError, receiver untouched, the copy is garbage *)
+  (let '(r, s') := run_helper ex_ct2 0 HUpdateTop
+                     (mkh [] false true VMissing false None (Some [(1, VInt 5); (3, VStr 7)]) [] None) ex_state2 in
+   r = Err TypeErr /\ nth_error (heap s') 0 = nth_error (heap ex_state2) 0) /\
+  (* reset_a3(): attribute removed on a copy;  transform_a1(x+10) on a copy *)
+  (let '(r, s') := run_helper ex_ct2 0 (HReset 3) (mkh [] false true VMissing false None None [] None) ex_state2 in
+   r = Ok (VRef 1) /\ nth_error (heap s') 1 = Some (OInst 2 [(1, VInt 7)])) /\
+  (let '(r, s') := run_helper ex_ct2 0 (HTransform 1) (mkh [] false true VMissing false None None [] (Some (FAddInt 10))) ex_state2 in
+   r = Ok (VRef 1) /\ nth_error (heap s') 1 = Some (OInst 2 [(1, VInt 18); (3, VInt 9)])).
+Proof.
+  split.
+  { intros p [<-|[<-|[]]]; left; reflexivity. }
+  vm_compute. repeat split.
+Qed.
+
 Print Assumptions C05_noop_if_false.
 Print Assumptions C05_noop_with_unchanged.
 Print Assumptions C05_noop_update_unchanged.
@@ -487,3 +556,6 @@ Print Assumptions C05_example_update_top.
 Print Assumptions C05_with_copy_err_partial.
 Print Assumptions C05_transform_copy_refines_partial.
 Print Assumptions C05_transform_copy_err_partial.
+Print Assumptions C05_reset_copy_refines_partial.
+Print Assumptions C05_update_top_copy_refines_partial.
+Print Assumptions C05_example_copy.
